@@ -40,7 +40,9 @@ def gen_case(rng, tier):
                                kinds=["site", "call", "vsite", "cond"], shared_cond=True)
     else:
         # mixture indicator z feeding a Cond whose own choices are all observed
-        da, db = rng.choice(["normal", "normal_s", "laplace"]), rng.choice(["normal", "normal_s", "exponential", "gamma"])
+        # both branches on the real line: an observation outside a branch's support would make the
+        # reference density 0 while TFP's unchecked log_prob stays finite (trusted base, not generated)
+        da, db = rng.choice(["normal", "normal_s", "laplace"]), rng.choice(["normal", "normal_s", "laplace"])
         c = {"model": {"blocks": [{"k": "site", "a": "z", "d": rng.choice(["normal", "flip"]), "kw": False},
                                   {"k": "cond", "a": "y", "shared": True, "thr": round(rng.uniform(-0.2, 0.4), 2),
                                    "ma": {"blocks": [{"k": "site", "a": "v", "d": da, "kw": False}]},
@@ -418,7 +420,12 @@ def mh_tree(case, gf, tr0, paths, S, viol, sig, probes):
     # all states = completions of the selected sites given everything else fixed (reference enumeration)
     fixed = ref.subset(ch_init, [p for p in paths if p not in S])
     states = []
-    for r, pu in ref.completions(model, h, fixed, max_leaves=64):
+    try:
+        comps = list(ref.completions(model, h, fixed, max_leaves=64))
+    except RuntimeError:
+        probes["tree_skipped_size"] = 1
+        return 0
+    for r, pu in comps:
         if any(not s["live"] and s["sampled"] for s in r.sites):
             pass
         states.append((r.choices, r.logp))
